@@ -10,7 +10,7 @@ CLAIM = {
          "port-status messages are delivered after it in arrival order, ConnectionDown exactly once for every announced connection that is lost and "
          "never otherwise. With two connections whose dpids may be equal (reconnect before the stale connection closes) and every close order, the "
          "registry maps exactly the dpids with a live handshaken connection to the most recent one and sendToDPID writes only to its socket."
-         " Also: a ConnectionDown listener that closes the connection itself (re-entrant) is part of every scenario.",
+         " Also: a ConnectionDown listener that closes the connection itself (re-entrant) is part of every scenario. O3_registry3: three connections with symbolic dpids, connects / losses / reconnects interleaved.",
  'note': "Trusted: CPython, z3, symx proxies/shims (SymDict-backed ConnectionDict), scripted sockets; the I/O loop's reaction to read()==False "
          "(close()) is applied by the harness as the loop body does. Bounded: 2 connections, the listed message scripts.",
 }
